@@ -317,16 +317,54 @@ pub fn check_case(c: &Case) -> Result<CaseInfo, Failure> {
     run_isolated("C13", c.clone(), &run_case)
 }
 
+/// deterministic histories: write back-pressure builds up and is lifted while the publish service is not ready
+/// (receive limits reached by a suspended inbound handler), in every order of the three events
+fn fixed_cases() -> Vec<Case> {
+    let q0 = Op::Send { kind: SendKind::Qos0, again: false, own_id: 0 };
+    let q1 = Op::Send { kind: SendKind::Qos1, again: false, own_id: 0 };
+    let rd = Op::Send { kind: SendKind::Ready, again: false, own_id: 0 };
+    let mut out = Vec::new();
+    for role in Role::ALL {
+        for limit in [1u16, 3] {
+            for n in [8usize, 14] {
+                for tail in [vec![q1], vec![rd, q1], vec![q1, rd]] {
+                    for hold_bp in [false, true] {
+                        // suspended handler first, then the stall
+                        let mut ops = vec![Op::Hold(true), Op::Inbound(0), Op::Window(false)];
+                        ops.extend(std::iter::repeat_n(q0, n));
+                        ops.extend(tail.iter().copied());
+                        ops.push(Op::Window(true));
+                        ops.push(Op::Settle);
+                        out.push(Case { role, limit, ops: ops.clone(), pre: Vec::new(), neg: false, hold_bp, busy_reader: true });
+                        // the stall first, the inbound packet while it lasts
+                        let mut ops = vec![Op::Hold(true), Op::Window(false)];
+                        ops.extend(std::iter::repeat_n(q0, n));
+                        ops.push(Op::Inbound(0));
+                        ops.extend(tail.iter().copied());
+                        ops.push(Op::Window(true));
+                        ops.push(Op::Settle);
+                        out.push(Case { role, limit, ops, pre: Vec::new(), neg: false, hold_bp, busy_reader: true });
+                    }
+                }
+            }
+        }
+    }
+    out
+}
+
 pub fn run(ctx: &Ctx, started: Instant) -> i32 {
     let per_shard = ctx.tier.pick(6_000u32, 100_000);
+    let fixed = fixed_cases();
     let stats = par_shards(WORKERS, |shard| {
         let mut st = Stats::default();
+        let mine: Vec<Case> = fixed.iter().enumerate().filter(|(i, _)| i % WORKERS == shard).map(|(_, c)| c.clone()).collect();
+        run_list_bed("C13", mine, &mut st, |c| json!({"case": c}), run_case);
         run_proptest_bed("C13", ctx.sub_seed("rand", shard), per_shard, &case_strategy(Role::ALL[shard % 4]), &mut st, |c| json!({"case": c}), run_case);
         st
     });
     let report = Report {
         level: "exploration",
-        rule: "histories of 3..25 ops for send limits 1..3: create(+poll) sink futures (QoS1, QoS2, subscribe, unsubscribe, ready(); some 'send again on completion'), QoS 0 sends (build back-pressure without taking a slot), inbound PUBLISH / PINGREQ / SUBSCRIBE whose responses share the write buffer, at most one streamed publish of 200 bytes (QoS 0/1) with chunks of 1/3/half/all owed bytes, poll in any order, drop arbitrary owned futures (parked, woken-but-unpolled), \
+        rule: "192 deterministic histories (write back-pressure builds up and is lifted while a suspended inbound handler keeps the publish service not ready, both orders, with ready() / QoS 1 senders parked) and proptest histories of 3..25 ops for send limits 1..3: create(+poll) sink futures (QoS1, QoS2, subscribe, unsubscribe, ready(); some 'send again on completion'), QoS 0 sends (build back-pressure without taking a slot), inbound PUBLISH / PINGREQ / SUBSCRIBE whose responses share the write buffer, at most one streamed publish of 200 bytes (QoS 0/1) with chunks of 1/3/half/all owed bytes, poll in any order, drop arbitrary owned futures (parked, woken-but-unpolled), \
                correct peer acknowledgements singly or batched, peer window stall/release at any step (64-byte write watermark). Final phase: lift the stall, release held QoS 2 receipts, acknowledge everything on the wire, poll every survivor, repeat until \
                nothing changes. Final phase also supplies every owed payload byte. Oracle: at that quiescence no surviving future is pending while fewer than `limit` packets are outstanding and back-pressure is off; no payload chunk future is pending while back-pressure is off and its PUBLISH header is out; no surviving future failed; the connection is alive. \
                Non-trivial = a parked waiter was cancelled, back-pressure was lifted on a full window, an ack batch >1 arrived with waiters parked, or a payload chunk was paused by back-pressure; distinct = (role, limit, op-kind trace)"
